@@ -15,12 +15,14 @@ import Lc.Lemmas.TreeOrder
 import Lc.Lemmas.KernelProbe
 import Lc.Lemmas.RunM
 import Lc.Lemmas.Probe
+import Lc.Lemmas.TreeGlue
 import Lc.Props.C12
 
 namespace Lc.Props.C03
 open Lc.SortByAux
 open Lc Lc.Layers Lc.Mountinfo Lc.Trace Lc.UmountTrace Lc.Kernel Lc.KernelUmount Lc.UmountState Lc.KernelResolve
 open Lc.TreeOrder (NoCovered)
+open Lc.TreeUmount (TreeS ClosedRegion)
 
 /-! ### what `getMountAndSubmounts` returns -/
 
@@ -910,5 +912,159 @@ theorem umount_hidden_submount_fixed_witness :
       simp only []
       rw [Lc.RunM.run_bind, Lc.RunM.run_liftRes, hfs']
       exact ⟨_, rfl⟩
+
+/-! ### unmounting along the mount tree is never refused (no `NoHidden`)
+
+  `TreeS` (Lemmas/TreeUmount): the tree discipline `KWF` plus what the kernel model's `addMount`
+  also guarantees — no two entries below one mount on the same mountpoint (a lookup of that
+  mountpoint ends on the first, so the second hangs below it), roots not nested (a namespace
+  has one).  `ClosedRegion mnts bp`: an entry that blocks (same parent, mountpoint equal to or a
+  path-prefix of the other's) an entry inside the region at/below `bp`, or on the way to it,
+  lies in the region itself: nothing mounted OUTSIDE the build root covers it.  Both decidable. -/
+
+/-- **treeOrder_subtree_first**: in the tree order of a path-sorted list (unique ids, nobody its
+    own parent, nothing listed before the mount it hangs below) the WHOLE SUBTREE of a covered
+    mount precedes the mount that covers it: no entry `v` is listed after an entry `u` that
+    covers `v` or an entry `v` hangs below (`TreeOrder.UBV`, chains over the listed mounts) -/
+theorem treeOrder_subtree_first (l : List MountType) (hnd : (l.map (·.id)).Nodup)
+    (hns : ∀ x ∈ l, x.id ≠ x.parent) (hpf : l.Pairwise (fun x y => y.id ≠ x.parent))
+    (hsorted : l.Pairwise (fun a b => bytesLt b.mountpoint a.mountpoint = false)) :
+    (inTreeOrder l).Pairwise (fun u v => ¬ TreeOrder.UBV l u v) :=
+  TreeOrder.inTreeOrder_subtree_first l hnd hns hpf hsorted
+
+/-- **kumount_unblocked_leaf** (the `kumountSeq` argument against `Kernel.resolve`, one call): in
+    a strict-tree table the lookup of the mountpoint of `x` ends on `x` — so `kumount` takes out
+    exactly `x` — when nothing hangs below `x` and no entry blocks `x` or one of the entries it
+    hangs below.  No `NoHidden`. -/
+theorem kumount_unblocked_leaf (t : KTable) (x : KMnt) (ht : TreeS t.mnts) (hx : x ∈ t.mnts)
+    (hleaf : ∀ c ∈ t.mnts, c.parent ≠ x.id)
+    (hnb : ∀ a, TreeUmount.Chain t.mnts a x → ∀ k ∈ t.mnts, ¬ TreeUmount.Blocks k a) :
+    mountedAt t.mnts x.mp = some x :=
+  TreeUmount.mountedAt_unblocked ht hx hleaf hnb
+
+/-- **umount_tree_order_no_call_refused**: plain world, kernel table with the strict tree
+    discipline `TreeS` — hidden mounts allowed, NOT `NoHidden` —, view agreeing with the table on
+    the region (ids, parent ids, mountpoints), build root neither "/" nor empty, the region
+    closed (`ClosedRegion`: nothing outside the build root covers it), idle layer.  Then the
+    kernel refuses NONE of the unmount calls of `unmountLayer`: in the order of
+    `getMountAndSubmounts` read from its end — path order, or the mount-tree order when a listed
+    mount covers a listed sibling — every target's lookup ends on the intended mount, which has
+    nothing mounted below it any more; on every exit the table is the initial one without the
+    region, and when the layer had mounts a normal return has status `ok`. -/
+theorem umount_tree_order_no_call_refused (cfg : Config) (d : Defs) (name : Bytes) (w : World) (l : Layer)
+    (hl : findLayer d name = some l) (hw : Plain w) (ht : TreeS w.kt.mnts)
+    (hcl : ClosedRegion w.kt.mnts (buildPath cfg l))
+    (hview : ViewAgrees l (buildPath cfg l) w.kt) (hbp : buildPath cfg l ≠ b!"/")
+    (hbp2 : buildPath cfg l ≠ []) (hb : isBusy l false = false) :
+    (kumountSeq w.kt (issueOrder l)).2.2 = none ∧
+    ((unmountLayer cfg d name).run.run w).2.kt.mnts =
+        w.kt.mnts.filter (fun m => !atOrBelow (buildPath cfg l) m.mp) ∧
+    (l.mounts.length ≠ 0 → ∀ st d', ((unmountLayer cfg d name).run.run w).1 = .ok (st, d') → st = .ok) := by
+  have hnone : (kumountSeq w.kt (issueOrder l)).2.2 = none := by
+    obtain ⟨view, hm, hv⟩ := hview
+    unfold issueOrder
+    rw [hm]
+    exact TreeGlue.issueOrder_tree_never_refused w.kt view (buildPath cfg l) ht hcl hbp hbp2 hv
+  have hcl' := kumountSeq_cleared w.kt (issueOrder l) (atOrBelow (buildPath cfg l)) ht.ids hview.perm hnone
+  refine ⟨hnone, ?_, ?_⟩
+  · by_cases hm : l.mounts.length = 0
+    · rcases unmountLayer_run_cases cfg d name w l hl with ⟨h1, _⟩ | ⟨_, _, h⟩ | ⟨_, h2, _⟩
+      · rw [hb] at h1; cases h1
+      · rw [h]
+        have hnil : issueOrder l = [] := by
+          unfold issueOrder
+          rw [List.length_eq_zero_iff.mp hm]; rfl
+        rw [hnil] at hcl'
+        exact hcl'
+      · exact absurd hm h2
+    · obtain ⟨hkt, _, _, _, _⟩ := unmountLayer_plain cfg d name w l hl hw hb hm
+      rw [hkt, hcl']
+  · intro hm st d' hr
+    exact ((unmountLayer_plain cfg d name w l hl hw hb hm).2.2.2.1 st d' hr).1
+
+/-! evaluated instances -/
+
+namespace Example4
+def bp4 : Bytes := b!"/b/L/x/build"
+def root4 : KMnt := { id := 1, parent := 0, dev := b!"8:1", root := b!"/", mp := b!"/", fstype := b!"ext4", source := b!"/dev/sda1" }
+def km (i p : Nat) (mp : Bytes) : KMnt := { id := i, parent := p, dev := b!"0:9", root := b!"/", mp := mp, fstype := b!"tmpfs", source := b!"t" }
+def vm (i p mp : Bytes) : MountType := ⟨[], mp, [], [], b!"tmpfs", b!"rw", false, b!"0:9", [47], i, p⟩
+
+/-- nested covers below the build root: A on `m` (40), s1 on `m/s` (41), s2 on `m/s/t` (42); then C1
+    stacked on `m` (43: covers s1 and s2 with it); inside C1: D on `m/s` (44), E on `m/s/u` (45);
+    then C2 stacked on C1's `m` (46: covers D and E); and proc (47) beside them -/
+def ktN : KTable :=
+  { mnts := [root4, km 40 1 b!"/b/L/x/build/m", km 41 40 b!"/b/L/x/build/m/s", km 42 41 b!"/b/L/x/build/m/s/t",
+             km 43 40 b!"/b/L/x/build/m", km 44 43 b!"/b/L/x/build/m/s", km 45 44 b!"/b/L/x/build/m/s/u",
+             km 46 43 b!"/b/L/x/build/m", km 47 1 b!"/b/L/x/build/proc"], nextId := 48 }
+def viewN : Mounts :=
+  { list := [⟨[], b!"/", [], [], b!"ext4", b!"rw", false, b!"8:1", [47], b!"1", b!"0"⟩,
+             vm b!"40" b!"1" b!"/b/L/x/build/m", vm b!"41" b!"40" b!"/b/L/x/build/m/s", vm b!"42" b!"41" b!"/b/L/x/build/m/s/t",
+             vm b!"43" b!"40" b!"/b/L/x/build/m", vm b!"44" b!"43" b!"/b/L/x/build/m/s", vm b!"45" b!"44" b!"/b/L/x/build/m/s/u",
+             vm b!"46" b!"43" b!"/b/L/x/build/m", vm b!"47" b!"1" b!"/b/L/x/build/proc"] }
+def lN : Layer := { name := b!"x", layerPath := b!"/b/L/x", state := S_mounted, mounts := getMountAndSubmounts viewN bp4 }
+def dN : Defs := { layers := [lN], order := [b!"x"], mounts := viewN }
+def wN : World := { kt := ktN }
+
+/-- shaped history 20 of the scenario suite: the layer's mounts, then by hand a mount over the whole
+    layer directory `/b/L/x` (50) — it hangs below the root like the layer's own mounts and covers
+    them from OUTSIDE the build root -/
+def ktCov : KTable :=
+  { mnts := [root4, km 30 1 b!"/b/L/x/build/proc", km 31 1 b!"/b/L/x/build/dev", km 50 1 b!"/b/L/x"], nextId := 51 }
+def ktUncov : KTable := { ktCov with mnts := ktCov.mnts.filter (·.id != 50) }
+end Example4
+
+set_option maxRecDepth 4000 in
+/-- the hypotheses of `umount_tree_order_no_call_refused` hold on the nested-cover table (which is
+    not `NoHidden`); the issue order is evaluated; the kernel model accepts all seven calls; by the
+    theorem the table afterwards holds the root only -/
+theorem tree_order_nested_instance :
+    TreeS Example4.wN.kt.mnts ∧ ClosedRegion Example4.wN.kt.mnts (buildPath Example.cfg0 Example4.lN) ∧
+    ¬ NoHidden Example4.wN.kt.mnts ∧
+    ViewAgrees Example4.lN (buildPath Example.cfg0 Example4.lN) Example4.wN.kt ∧
+    (Example4.lN.mounts.map (·.id)) = [b!"40", b!"41", b!"42", b!"43", b!"44", b!"45", b!"46", b!"47"] ∧
+    (kumountSeq Example4.wN.kt (issueOrder Example4.lN)).2.2 = none ∧
+    ((unmountLayer Example.cfg0 Example4.dN b!"x").run.run Example4.wN).2.kt.mnts = [Example4.root4] := by
+  have hts : TreeS Example4.wN.kt.mnts :=
+    { ids := by decide +kernel, parentFirst := by decide +kernel, noSelf := by decide +kernel,
+      under := by decide +kernel, noTwins := by decide +kernel, rootsApart := by decide +kernel }
+  have hcl : ClosedRegion Example4.wN.kt.mnts (buildPath Example.cfg0 Example4.lN) := by decide +kernel
+  have hva : ViewAgrees Example4.lN (buildPath Example.cfg0 Example4.lN) Example4.wN.kt :=
+    viewAgrees_intro Example4.viewN (by rfl) (by decide +kernel)
+  have hthm := umount_tree_order_no_call_refused Example.cfg0 Example4.dN b!"x" Example4.wN Example4.lN rfl
+    ⟨rfl, rfl, rfl⟩ hts hcl hva (by decide) (by decide) rfl
+  refine ⟨hts, hcl, ?_, hva, by decide +kernel, hthm.1, ?_⟩
+  · intro h
+    have := h.sib (Example4.km 43 40 b!"/b/L/x/build/m") (by simp [Example4.wN, Example4.ktN])
+      (Example4.km 41 40 b!"/b/L/x/build/m/s") (by simp [Example4.wN, Example4.ktN]) (by decide) (.inl rfl)
+    exact absurd this (by decide)
+  · rw [hthm.2.1]
+    decide +kernel
+
+/-- cross-check by evaluating the kernel model on the issue order (independent of the theorem) -/
+example : (kumountSeq Example4.wN.kt (issueOrder Example4.lN)) =
+    (issueOrder Example4.lN, { Example4.ktN with mnts := [Example4.root4] }, none) := by decide +kernel
+
+/-- **`ClosedRegion` fails exactly for the "layer directory covered from outside" table** (shaped
+    history 20): strict tree, but the cover on `/b/L/x` blocks the layer's mounts from outside
+    the build root — and indeed every unmount call is refused (EINVAL) there; without the cover
+    the region is closed -/
+theorem closedRegion_fails_when_covered_from_outside :
+    TreeS Example4.ktCov.mnts ∧ ¬ ClosedRegion Example4.ktCov.mnts Example4.bp4 ∧
+    (kumountSeq Example4.ktCov [b!"/b/L/x/build/proc", b!"/b/L/x/build/dev"]).2.2 = some .einval ∧
+    (kumountSeq Example4.ktCov [b!"/b/L/x/build/dev", b!"/b/L/x/build/proc"]).2.2 = some .einval ∧
+    TreeS Example4.ktUncov.mnts ∧ ClosedRegion Example4.ktUncov.mnts Example4.bp4 := by
+  refine ⟨{ ids := by decide +kernel, parentFirst := by decide +kernel, noSelf := by decide +kernel,
+            under := by decide +kernel, noTwins := by decide +kernel, rootsApart := by decide +kernel },
+    by decide +kernel, by decide +kernel, by decide +kernel,
+    { ids := by decide +kernel, parentFirst := by decide +kernel, noSelf := by decide +kernel,
+      under := by decide +kernel, noTwins := by decide +kernel, rootsApart := by decide +kernel },
+    by decide +kernel⟩
+
+/-- the binman-shaped table of `umount_hidden_submount_fixed_witness` is an instance too -/
+example : TreeS Example3.w4.kt.mnts ∧ ClosedRegion Example3.w4.kt.mnts (buildPath Example.cfg0 Example3.l4) := by
+  exact ⟨{ ids := by decide +kernel, parentFirst := by decide +kernel, noSelf := by decide +kernel,
+           under := by decide +kernel, noTwins := by decide +kernel, rootsApart := by decide +kernel },
+    by decide +kernel⟩
 
 end Lc.Props.C03
